@@ -2,8 +2,9 @@
 iocb.IOQController/SieveQueue per destination, app.ApplicationIOController._app_request/_app_complete), with the
 stack below replaced by a recorder.  A history is a list of operations
 
-  ['submit', i, addr, fail]   app.request_io(IOCB i for a confirmed request to station addr); fail = the stack
-                              below raises when the request is handed down (e.g. "invoke ID in use")
+  ['submit', i, addr, fail, follow]   app.request_io(IOCB i for a confirmed request to station addr); fail = the stack
+                              below raises when the request is handed down (e.g. "invoke ID in use"); follow = None or
+                              [j, addr2, fail2]: the completion / error callback of IOCB i submits IOCB j, synchronously
   ['confirm', addr, kind]     the stack below confirms for station addr: kind 0 = ack (complete), 1 = error (abort); the
                               PDU answers the oldest request handed down for that station and not yet answered (each is
                               its own SSM transaction), which is remembered for the content check only
@@ -49,6 +50,8 @@ def run_history(ops, niocb):
     iocbs = {}
     calls = {}
     answers = {}
+    follow = {}
+    aborted_active = set()
 
     def mk(i, addr):
         rq = ReadPropertyRequest(objectIdentifier=('analogValue', i), propertyIdentifier='presentValue')
@@ -62,6 +65,17 @@ def run_history(ops, niocb):
             log.append(('callback', _i, iocb.ioState))
             r = iocb.ioResponse if iocb.ioResponse is not None else iocb.ioError
             answers[_i] = getattr(r, '_tag', None)
+            fo = follow.get(_i)
+            if fo and calls[_i] == 1:
+                j, a2, f2 = fo
+                events.extend([23, j])
+                log.append(('followup', j))
+                if j not in iocbs:
+                    if f2:
+                        failing.add(j)
+                    iocbs[j] = mk(j, a2)
+                    iocbs[j]._addr = a2
+                    app.request_io(iocbs[j])
         io.add_callback(cb)
         return io
 
@@ -71,12 +85,15 @@ def run_history(ops, niocb):
         events.extend([10, OPS[k]])
         try:
             if k == 'submit':
-                _, i, addr, fail = op
-                if fail:
-                    failing.add(i)
-                iocbs[i] = mk(i, addr)
-                iocbs[i]._addr = addr
-                app.request_io(iocbs[i])
+                i, addr, fail = op[1], op[2], op[3]
+                if i not in iocbs:
+                    if fail:
+                        failing.add(i)
+                    if len(op) > 4 and op[4]:
+                        follow[i] = op[4]
+                    iocbs[i] = mk(i, addr)
+                    iocbs[i]._addr = addr
+                    app.request_io(iocbs[i])
             elif k == 'confirm':
                 _, addr, kind = op[:3]
                 tag = outstanding[addr].pop(0) if outstanding.get(addr) else -1
@@ -90,6 +107,8 @@ def run_history(ops, niocb):
             elif k == 'abort':
                 _, i = op
                 if i in iocbs:
+                    if iocbs[i].ioState == 2:
+                        aborted_active.add(i)
                     iocbs[i].abort(Down("client abort"))
             elif k == 'run':
                 fns = bcore.deferredFns[:]
@@ -116,16 +135,19 @@ def run_history(ops, niocb):
     final += [32, len(bcore.deferredFns)]
     details = {'calls': calls, 'answers': answers, 'states': {i: io.ioState for i, io in iocbs.items()}, 'exn': exn,
                'queues': [(a, q.state, len(q.ioQueue.queue), q.active_iocb is not None) for a, q in qs],
-               'deferred': len(bcore.deferredFns), 'log': log}
+               'deferred': len(bcore.deferredFns), 'log': log, 'aborted_active': sorted(aborted_active), 'ids': sorted(iocbs),
+               'addr_of': {i: io._addr for i, io in iocbs.items()}, 'aborted_active_addrs': sorted(set(iocbs[i]._addr for i in aborted_active))}
     bcore.deferredFns[:] = []
     return events + final, details
 
 
-def gen_history(rng, niocb=None, naddr=None, with_abort=None):
+def gen_history(rng, niocb=None, naddr=None, with_abort=None, with_follow=None):
     niocb = niocb or rng.randrange(1, 9)
     naddr = naddr or rng.randrange(1, 4)
     with_abort = rng.random() < 0.3 if with_abort is None else with_abort
     addrs = [10 + a for a in range(naddr)]
+    with_follow = rng.random() < 0.4 if with_follow is None else with_follow
+    nxt = [niocb]
     ops = []
     pending = list(range(niocb))
     submitted = []
@@ -133,7 +155,12 @@ def gen_history(rng, niocb=None, naddr=None, with_abort=None):
         u = rng.random()
         if pending and u < 0.4:
             i = pending.pop(0)
-            ops.append(['submit', i, rng.choice(addrs), 1 if rng.random() < 0.1 else 0])
+            a = rng.choice(addrs)
+            fo = None
+            if with_follow and rng.random() < 0.35:
+                fo = [nxt[0], a if rng.random() < 0.6 else rng.choice(addrs), 1 if rng.random() < 0.1 else 0]
+                nxt[0] += 1
+            ops.append(['submit', i, a, 1 if rng.random() < 0.1 else 0, fo])
             submitted.append(i)
         elif u < 0.7:
             ops.append(['confirm', rng.choice(addrs), 0 if rng.random() < 0.7 else 1])
@@ -142,20 +169,44 @@ def gen_history(rng, niocb=None, naddr=None, with_abort=None):
         else:
             ops.append(['abort', rng.choice(submitted)])
     for i in pending:
-        ops.append(['submit', i, rng.choice(addrs), 0])
+        ops.append(['submit', i, rng.choice(addrs), 0, None])
     # drain: confirmations and deferred batches until nothing can be left
-    for _ in range(niocb + 2):
+    for _ in range(nxt[0] + 2):
         for a in addrs:
             ops.append(['confirm', a, 0])
         ops.append(['run'])
-    return ops, niocb
+    return ops, nxt[0]
+
+
+def gen_queue_abort(rng):
+    """three or more IOCBs queued for one peer, one of those still waiting behind the active one is aborted by the client
+    (IOCB.abort / time-out) while the active request is unanswered; then the answers arrive in order"""
+    m = rng.randrange(3, 7)
+    n = m
+    a = 10
+    ops = [['submit', i, a, 0, None] for i in range(m)]
+    if rng.random() < 0.5:
+        ops.insert(rng.randrange(1, m), ['submit', m, 11, 0, None])
+        n += 1
+    victims = rng.sample(range(1, m), rng.choice([1, 1, 2]))
+    for v in victims:
+        ops.append(['abort', v])
+        if rng.random() < 0.5:
+            ops.append(['run'])
+    for _ in range(n + 2):
+        ops.append(['confirm', a, 0 if rng.random() < 0.8 else 1])
+        ops.append(['confirm', 11, 0])
+        ops.append(['run'])
+    return ops, n
 
 
 def coq_ops(ops):
     out = []
     for op in ops:
         if op[0] == 'submit':
-            out.append('OSubmit %d %d %s' % (op[1], op[2], 'true' if op[3] else 'false'))
+            fo = op[4] if len(op) > 4 else None
+            out.append('OSubmit %d %d %s %s' % (op[1], op[2], 'true' if op[3] else 'false',
+                                                 ('(Some (%d, %d, %s))' % (fo[0], fo[1], 'true' if fo[2] else 'false')) if fo else 'None'))
         elif op[0] == 'confirm':
             out.append('OConfirm %d %s' % (op[1], 'true' if op[2] == 0 else 'false'))
         elif op[0] == 'abort':
@@ -169,7 +220,7 @@ def check_history(ops, niocb):
     """the IOCB half of C04 on the implementation alone"""
     res, det = run_history(ops, niocb)
     f = []
-    submitted = [o[1] for o in ops if o[0] == 'submit']
+    submitted = det['ids']
     for i in submitted:
         c = det['calls'].get(i, 0)
         if c > 1:
@@ -182,7 +233,8 @@ def check_history(ops, niocb):
         a = det['answers'].get(i)
         if c >= 1 and a is not None and a != i:
             f.append({'kind': 'iocb-answer-for-other-request', 'iocb': i, 'answers': a,
-                      'client_aborts': [o[1] for o in ops if o[0] == 'abort']})
+                      'client_aborts': [o[1] for o in ops if o[0] == 'abort'],
+                      'active_request_aborted_to_this_peer': det['addr_of'].get(i) in det['aborted_active_addrs']})
     if det['exn']:
         f.append({'kind': 'iocb-exception', 'exc': det['exn'][0]})
     return f, det
@@ -191,7 +243,7 @@ def check_history(ops, niocb):
 def check_drained(ops, niocb):
     """after the draining tail of gen_history every IOCB is finished and nothing is queued, active or registered"""
     f, det = check_history(ops, niocb)
-    for i in [o[1] for o in ops if o[0] == 'submit']:
+    for i in det['ids']:
         if det['states'].get(i) not in (3, 4):
             f.append({'kind': 'iocb-not-finished', 'iocb': i, 'state': det['states'].get(i)})
     for (a, st, qlen, act) in det['queues']:
